@@ -38,7 +38,7 @@ def prepare_crate(unit):
 
 def run_kani(ctx, unit, harness=(), flags=(), rustflags=None, jobs=16, harness_timeout='10m',
              wall_timeout=3600, tag=None, features=None, no_default_features=False,
-             allow_failed=None, bounded_note=None, key_prefix=None, playback=True):
+             allow_failed=None, bounded_note=None, key_prefix=None, playback=True, search=None):
     """Run harnesses (substring filters) of kani/<unit>. Returns parsed JSON (or None)."""
     crate, target = prepare_crate(unit)
     tag = tag or 'default'
@@ -154,12 +154,24 @@ def run_kani(ctx, unit, harness=(), flags=(), rustflags=None, jobs=16, harness_t
         if playback and idx < 1:
             witness, pb = concrete_playback(unit, crate, env, hid, flags, features, no_default_features)
         short = hid.split('::')[-1]
+        replay_cmd = '%s/tools/kani_replay.sh %s %s %s' % (VERIF, unit, hid, tag)
+        if witness is None and search is not None:
+            # paired native search (finds an input only; never decides)
+            from .vunit import Searcher
+            crate_, target_of = search
+            tgt = target_of(short)
+            if tgt:
+                sr = getattr(ctx, '_searchers', {}).get(crate_) or Searcher(crate_, ctx)
+                ctx._searchers = dict(getattr(ctx, '_searchers', {}), **{crate_: sr})
+                witness = sr.search(tgt)
+                if witness:
+                    replay_cmd = sr.replay_cmd(witness)
         key = '%s|%s|%s' % (key_prefix or ('kani:' + unit), short, re.sub(r'\s+', ' ', fails[0].get('description', ''))[:120])
         detail = 'Kani harness %s FAILED\n%s\n' % (hid, desc)
         if pb:
             detail += '\n---- concrete playback (Kani counterexample as a unit test over the real code) ----\n' + pb
         ctx.violation(key, 'kani %s::%s: %s' % (unit, short, desc[:300]), detail, witness=witness,
-                      replay_cmd=('%s/tools/kani_replay.sh %s %s %s' % (VERIF, unit, hid, tag)),
+                      replay_cmd=replay_cmd,
                       engine='kani:' + unit)
     part = dict(engine='kani', unit=unit, tag=tag, harnesses=len(results), verified=n_ok, wall_s=round(wall, 1),
                 flags=list(flags), rustflags=rustflags, per_harness=per)
